@@ -188,5 +188,5 @@ CHECKS.update({
    technique="TLA+ tool-run contract (TLC) + trace validation of sanitizer-instrumented tool runs over a spec-defined corruption catalogue"),
 })
 # only these are written to MANIFEST.json (a check enters the list after its quick tier has passed on /repo HEAD itself)
-REGISTERED = ["C02", "C03", "C04", "C05", "C06", "C07", "C08", "C09", "C10", "C11", "C12", "C13", "C14", "C15", "C16", "C17", "C18", "C19", "C20"]
+REGISTERED = ["C01", "C02", "C03", "C04", "C05", "C06", "C07", "C08", "C09", "C10", "C11", "C12", "C13", "C14", "C15", "C16", "C17", "C18", "C19", "C20"]
 NA = {}
